@@ -456,8 +456,11 @@ fn probe_flags(args: &Args) {
                 for (sig, kind) in &all_sigs {
                   // once in a single-threaded child and, for the first status, once more in a
                   // child that has other (idle) threads: termination must take the whole process
-                  for mt in [false, true] {
-                    if mt && si > 0 {
+                  // ... and once with everything registered in a process that then forks: the child
+                  // inherits the dispositions and the registry, and it is the child that gets the signals
+                  for mode in ["st", "mt", "fork"] {
+                    let (mt, forked) = (mode == "mt", mode == "fork");
+                    if mode != "st" && si > 0 {
                         continue;
                     }
                     let (sig, status, kind) = (*sig, *status, *kind);
@@ -501,6 +504,24 @@ fn probe_flags(args: &Args) {
                             }
                             _ => reg_flag(&term),
                         }
+                        if forked {
+                            let pid = unsafe { libc::fork() };
+                            if pid > 0 {
+                                // mirror the child's fate
+                                let mut ws: c_int = 0;
+                                unsafe {
+                                    libc::waitpid(pid, &mut ws, 0);
+                                    if libc::WIFEXITED(ws) {
+                                        libc::_exit(libc::WEXITSTATUS(ws));
+                                    }
+                                    let ts = libc::WTERMSIG(ws);
+                                    libc::signal(ts, libc::SIG_DFL);
+                                    unblock(ts);
+                                    libc::raise(ts);
+                                    libc::_exit(98);
+                                }
+                            }
+                        }
                         for ch in script.chars() {
                             match ch {
                                 'a' => term.store(true, Ordering::SeqCst),
@@ -538,6 +559,7 @@ fn probe_flags(args: &Args) {
                             .int("sig", sig as i64)
                             .str("kind", kind)
                             .boolean("mt", mt)
+                            .str("mode", mode)
                             .str("status", &st.text)
                             .raw("r", &kv_json(&st.report))
                             .done()
@@ -1908,6 +1930,88 @@ fn probe_flagsb(args: &Args) {
 fn probe_flagsb(_args: &Args) {}
 
 // ---------------------------------------------------------------------------------------------
+// C13: descriptors that are duplicates of one socket / pipe, registered for different signals
+// ---------------------------------------------------------------------------------------------
+
+/// One write end, `try_clone`d and registered for two signals (the documented way to watch several
+/// signals with one self-pipe). Removing one registration closes one descriptor; the other one must
+/// go on delivering one byte per delivery.
+fn probe_pipe_sibling(_args: &Args) {
+    for kind in ["stream", "dgram", "pipe"] {
+        let st = fork_run(8000, || {
+            let (r, w) = make_pair(kind);
+            unsafe {
+                let fl = libc::fcntl(r, libc::F_GETFL, 0);
+                libc::fcntl(r, libc::F_SETFL, fl | libc::O_NONBLOCK);
+            }
+            let w2 = unsafe { libc::dup(w) };
+            let id1 = signal_hook::low_level::pipe::register_raw(libc::SIGUSR1, w).unwrap();
+            let _id2 = signal_hook::low_level::pipe::register_raw(libc::SIGUSR2, w2).unwrap();
+            unsafe { libc::raise(libc::SIGUSR1) };
+            unsafe { libc::raise(libc::SIGUSR2) };
+            let before = drain_count(r);
+            signal_hook::low_level::unregister(id1);
+            let mut after = 0;
+            for _ in 0..3 {
+                unsafe { libc::raise(libc::SIGUSR2) };
+                after += drain_count(r);
+            }
+            // end of file on the read end means the write side was shut down for everybody
+            let mut b = [0u8; 1];
+            let n = unsafe { libc::read(r, b.as_mut_ptr() as *mut libc::c_void, 1) };
+            report(&format!("before={};after={};eof={};", before, after, (n == 0) as i32));
+            0
+        });
+        println!("{}", Obj::new("pipe_sibling").str("kind", kind).str("status", &st.text).raw("r", &kv_json(&st.report)).done());
+    }
+}
+
+// ---------------------------------------------------------------------------------------------
+// C12: the last two owners of an instance dropped at the same time on two threads
+// ---------------------------------------------------------------------------------------------
+
+/// Real threads (std's Arc is not a shim type, the scheduler cannot interleave inside it): the
+/// instance and a handle are dropped simultaneously, many times; afterwards nothing the instance
+/// registered may be left in the registry and no descriptor may have leaked.
+fn probe_dropstress(args: &Args) {
+    let iters = args.num("iterations", 4000);
+    for raw in [false, true] {
+        let st = fork_run(120_000, || {
+            use signal_hook::iterator::exfiltrator::WithRawSiginfo;
+            use signal_hook::iterator::{Signals, SignalsInfo};
+            let fds0 = count_open_fds();
+            let mut leaked_rounds = 0usize;
+            for _ in 0..iters {
+                let (h, inst): (signal_hook::iterator::Handle, Box<dyn Send>) = if raw {
+                    let s = SignalsInfo::<WithRawSiginfo>::new(&[libc::SIGUSR1]).unwrap();
+                    (s.handle(), Box::new(s))
+                } else {
+                    let s = Signals::new(&[libc::SIGUSR1]).unwrap();
+                    (s.handle(), Box::new(s))
+                };
+                let go = Arc::new(AtomicBool::new(false));
+                let g2 = Arc::clone(&go);
+                let t = std::thread::spawn(move || {
+                    while !g2.load(Ordering::SeqCst) {}
+                    drop(h);
+                });
+                go.store(true, Ordering::SeqCst);
+                drop(inst);
+                t.join().unwrap();
+                if signal_hook_registry::verif::registry_content().0.iter().any(|(sg, a)| *sg == libc::SIGUSR1 && !a.is_empty()) {
+                    leaked_rounds += 1;
+                    #[allow(deprecated)]
+                    signal_hook_registry::unregister_signal(libc::SIGUSR1);
+                }
+            }
+            report(&format!("iterations={};leaked_rounds={};fds_left={};", iters, leaked_rounds, count_open_fds() as i64 - fds0 as i64));
+            0
+        });
+        println!("{}", Obj::new("signals_dropstress").boolean("raw", raw).str("status", &st.text).raw("r", &kv_json(&st.report)).done());
+    }
+}
+
+// ---------------------------------------------------------------------------------------------
 // C12: Signals instances and rejected additions
 // ---------------------------------------------------------------------------------------------
 
@@ -2277,6 +2381,8 @@ pub fn main(args: &Args, which: &str) -> i32 {
         "stall" => probe_stall(args),
         "step" => probe_step(args),
         "flagsb" => probe_flagsb(args),
+        "pipe_sibling" => probe_pipe_sibling(args),
+        "dropstress" => probe_dropstress(args),
         "origin" => probe_origin(args),
         _ => {
             eprintln!("unknown probe {}", which);
